@@ -11,7 +11,7 @@
    A mismatch of the second conjunct is a violation witness; [explain] additionally shows the spec
    (the slice of the globally sorted matches). *)
 From Coq Require Import ZArith List Bool.
-From Verif Require Import Common.Bytes Collect.Shards Extracted.Extracted.
+From Verif Require Import Common.Bytes Collect.Shards Collect.ShardsPre Extracted.Extracted.
 Import ListNotations.
 Local Open Scope Z_scope.
 
@@ -21,7 +21,13 @@ Record oresult := { o_hits : list obs; o_total : Z; o_maxscore : Z; o_facets : f
 Inductive case :=
 | CAlias (rq : request) (t : tree)
          (single : option oresult)      (* Index.Search on the index holding everything; None = error *)
-         (alias : option oresult).      (* IndexAlias.Search on the tree; None = error *)
+         (alias : option oresult)       (* IndexAlias.Search on the tree; None = error *)
+(* the same with the pre-search phase in play (aliases with / without SetIndexMapping, synonym
+   definitions spread over the members, BM25 global scoring): every member comes with its answer to the
+   pre-search request and with the PreSearchData under which its matches were listed; [spre] is the
+   single index' own answer to the pre-search request (shown by [explain] only) *)
+| CAliasPre (c : pcfg) (rq : request) (st : stree) (spre : presult)
+            (single : option oresult) (alias : option oresult).
 
 (* the trim guard hitsInCurrentPage currently has in /repo (T1) *)
 Definition current_guard : option guard := guard_of_op XAlias.trim_guard_op.
@@ -94,13 +100,17 @@ Definition facets_agree (rq : request) (t : tree) (x y : facets) : bool :=
     | _, _ => false
     end) (q_fsizes rq).
 
-Definition model_agrees (g : guard) (rq : request) (t : tree) (a : oresult) : bool :=
+(* [ms]: compare MaxScore too (not when members expand the query with synonyms: the real alias appends
+   them in arrival order and with the multiplicity of replicated definitions, which moves the scores —
+   not the matches — of the synonym disjunction; scores are outside the property) *)
+Definition model_agrees_ms (ms : bool) (g : guard) (rq : request) (t : tree) (a : oresult) : bool :=
   match search g t rq with
   | Some r =>
       obs_list_eqb (map hobs (r_hits r)) (o_hits a) && (r_total r =? o_total a) &&
-      (r_maxscore r =? o_maxscore a) && facets_agree rq t (r_facets r) (o_facets a)
+      (negb ms || (r_maxscore r =? o_maxscore a)) && facets_agree rq t (r_facets r) (o_facets a)
   | None => false
   end.
+Definition model_agrees := model_agrees_ms true.
 
 Definition oracle_agrees (rq : request) (t : tree) (a s : oresult) : bool :=
   obs_list_eqb (o_hits a) (o_hits s) && (o_total a =? o_total s) &&
@@ -113,6 +123,14 @@ Definition check (c : case) : bool :=
       | Some g, Some s, Some a => case_wf rq t && model_agrees g rq t a && oracle_agrees rq t a s
       | _, _, _ => false
       end
+  | CAliasPre c rq st spre single alias =>
+      match current_guard, single, alias, resolve c st None with
+      | Some g, Some s, Some a, Some t =>
+          case_wf rq t && model_agrees_ms (no_synonyms_used c st) g rq t a &&
+          (* the property oracle, whenever every member searches with the whole thesaurus *)
+          (negb (whole_thesaurus c st) || oracle_agrees rq t a s)
+      | _, _, _, _ => false
+      end
   end.
 
 (* for replay files: the guard in force, what the model's alias returns, and the spec *)
@@ -123,11 +141,17 @@ Record expl := {
   e_spec_page : list obs;             (* slice of the globally sorted matches *)
   e_spec_total : Z;
   e_facets_covered : bool;
-  e_model_ok : bool; e_oracle_ok : bool
+  e_model_ok : bool; e_oracle_ok : bool;
+  (* pre-search cases: the PreSearchData the model hands to each member index (in leaf order), whether
+     each listing was made under it, whether every member searches with the whole thesaurus (then the
+     oracle applies), and whether the union of the members' synonyms is what the single index finds *)
+  e_leaf_data : list (option pdata);
+  e_listings_ok : bool;
+  e_whole_thesaurus : bool;
+  e_union_is_single : bool
 }.
-Definition explain (c : case) : expl :=
-  match c with
-  | CAlias rq t single alias =>
+Definition explain_plain (rq : request) (t : tree) (single alias : option oresult) (ms : bool)
+    (ld : list (option pdata)) (lok wt us : bool) : expl :=
       let m := match current_guard with
                | Some g => match search g t rq with
                            | Some r => Some {| o_hits := map hobs (r_hits r); o_total := r_total r;
@@ -140,7 +164,26 @@ Definition explain (c : case) : expl :=
          e_spec_page := spec_page rq t; e_spec_total := spec_total t;
          e_facets_covered := facets_covered rq t;
          e_model_ok := match current_guard, alias with
-                       | Some g, Some a => model_agrees g rq t a | _, _ => false end;
+                       | Some g, Some a => model_agrees_ms ms g rq t a | _, _ => false end;
          e_oracle_ok := match single, alias with
-                        | Some s, Some a => oracle_agrees rq t a s | _, _ => false end |}
+                        | Some s, Some a => oracle_agrees rq t a s | _, _ => false end;
+         e_leaf_data := ld; e_listings_ok := lok; e_whole_thesaurus := wt; e_union_is_single := us |}.
+
+(* the tree with every listing accepted as it is (to show something when [resolve] rejects the case) *)
+Fixpoint forget (st : stree) : tree :=
+  match st with
+  | SLeaf sl => Leaf (sl_leaf sl)
+  | SAlias _ cs => Alias (map forget cs)
+  end.
+
+Definition explain (c : case) : expl :=
+  match c with
+  | CAlias rq t single alias => explain_plain rq t single alias true [] true true true
+  | CAliasPre c rq st spre single alias =>
+      let t := match resolve c st None with Some t => t | None => forget st end in
+      explain_plain rq t single alias (no_synonyms_used c st)
+        (map snd (leaf_data c st None))
+        (match resolve c st None with Some _ => true | None => false end)
+        (whole_thesaurus c st)
+        (triples_equiv (global_triples st) (osyn_triples (p_syn spre)))
   end.
